@@ -85,14 +85,14 @@ var errTable = map[string]tabEntry{
 		"the marshalled value was itself produced by json.Unmarshal (interface{} tree of maps, slices, strings, numbers, bools): Marshal cannot fail on it"},
 	"pebbles.(*Gateway).subscriptionHandler/drop github.com/buildbuildio/pebbles.sendHeartbeat": {1,
 		"heartbeat goroutine: a failed keep-alive write means the client is gone; the read loop notices the same broken connection and tears down"},
-	"pebbles.(*Gateway).subscriptionHandler$2/drop net.Conn.Close": {1, "closing an already failing connection: nothing to report to"},
-	"queryer.(*MultiOpQueryer).Subscribe$1/drop net.Conn.Close":     {1, "closing the upstream connection on teardown: nothing to report to"},
-	"queryer.(*MultiOpQueryer).Subscribe$2$1/drop net.Conn.Close":   {1, "closing the upstream connection on teardown: nothing to report to"},
+	"pebbles.(*Gateway).subscriptionHandler$2/drop net.Conn.Close":   {1, "closing an already failing connection: nothing to report to"},
+	"queryer.(*MultiOpQueryer).Subscribe$1/drop net.Conn.Close":      {1, "closing the upstream connection on teardown: nothing to report to"},
+	"queryer.(*MultiOpQueryer).Subscribe$2$1/drop net.Conn.Close":    {1, "closing the upstream connection on teardown: nothing to report to"},
 	"queryer.(*MultiOpQueryer).sendRequest/drop io.ReadCloser.Close": {1, "body already read completely; Close error carries no information for the caller"},
 	"pebbles.(Results).Emit/drop (*encoding/json.Encoder).Encode":    {2, "the status line is already written; an encode/write failure means the client went away and cannot be told"},
 	"playground.(DefaultPlayground).ServePlayground/drop net/http.ResponseWriter.Write": {1,
 		"static playground page: a failed write means the browser went away"},
-	"pebbles.emitError/drop (*encoding/json.Encoder).Encode":         {1, "the status line is already written; an encode/write failure means the client went away and cannot be told"},
+	"pebbles.emitError/drop (*encoding/json.Encoder).Encode": {1, "the status line is already written; an encode/write failure means the client went away and cannot be told"},
 	"planner.extractSelectionSet/test (*planner.PlanningContext).GetURL": {1,
 		"deliberate fallback: fields without a route (id, fields of interfaces) stay in the current step's selection (comment in the source)"},
 	"planner.routeSelectionSet/test planner.filterSelectionSetByLoc": {1,
@@ -147,4 +147,40 @@ var detTable = map[string]tabEntry{
 		"only the numbering of multipart parts follows map order; the file map and the parts are numbered consistently"},
 	"requests.Parse/range map[string][]string": {1,
 		"injections at distinct variable slots commute; two files at the same slot fail in either order"},
+}
+
+// detKinds / stepKinds: for every tabled loop, the kinds of order-sensitive effects the
+// tabled argument covers. A new kind of effect in the same loop is not covered.
+var detKinds = map[string][]string{
+	"executor.(*DepthExecutor).executeRequests/range map[int]struct{}":                                        {"store"},
+	"executor.(*DepthExecutorManager).merge/range .Result map[string]interface{}":                             {"call:executor.mergeMaps"},
+	"executor.(indexMap).GetSameIndexes/range param executor.indexMap":                                        {"early-exit"},
+	"executor.mergeMaps/range param map[string]interface{}":                                                   {"call:executor.mergeMaps", "call:executor.mergeSlices"},
+	"merger.(ExtendMergerFunc).Merge/range .Types map[string]*github.com/vektah/gqlparser/v2/ast.Definition":  {"store"},
+	"merger.(TypeURLMap).GetURLs/range map[string]struct{}":                                                   {"append-unsorted"},
+	"merger.(TypeURLMap).SetFromSchema/range param map[string]*github.com/vektah/gqlparser/v2/ast.Definition": {"call:(merger.TypeURLMap).Set", "call:(merger.TypeURLMap).SetTypeIsImplementsNode"},
+	"merger.mergeCustomObjectFields/range map[int]bool":                                                       {"append-unsorted", "carried:bool"},
+	"merger.mergeTypes/range param map[string]*github.com/vektah/gqlparser/v2/ast.Definition":                 {"call:merger.mergeCustomObjects", "call:merger.mergeRootObjects", "early-exit"},
+	"pebbles.(subscriptionDict).CleanAll/range param pebbles.subscriptionDict":                                {"call:(github.com/buildbuildio/pebbles.subscriptionDict).Clean"},
+	"planner.(*CachedPlanner).clean/range .cacheTimers map[planner.hashKey]time.Time":                         {"append-unsorted"},
+	"planner.(ScrubFields).Clean/range param planner.ScrubFields":                                             {"call:(planner.ScrubFields).clean", "call:(planner.ScrubFields).unhash"},
+	"planner.(ScrubFields).Merge/range param planner.ScrubFields":                                             {"mapwrite-unkeyed"},
+	"planner.(ScrubFields).clean/range param map[string][]string":                                             {"early-exit"},
+	"planner.createQueryPlanSteps/range map[string]github.com/vektah/gqlparser/v2/ast.SelectionSet":           {"call:planner.extractSelectionSet", "early-exit"},
+	"queryer.(*UploadMap).extract/range map[string]interface{}":                                               {"call:(*queryer.UploadMap).extract"},
+	"queryer.extractFiles/range .Variables map[string]interface{}":                                            {"call:(*queryer.UploadMap).extract"},
+	"requests.Parse/range map[string][]string":                                                                {"call:(*net/http.Request).FormFile", "call:(*requests.ParseRequestResponse).injectFile", "early-exit"},
+}
+var stepKinds = map[string][]string{
+	"executor.(*DepthExecutorManager).Execute":    {"append-unsorted"},
+	"executor.NewDepthExecutorManager":            {"call:executor.walkPlanStep"},
+	"executor.findNextExecutionRequestsWithCache": {"call:executor.FindInsertionPoints", "call:executor.copy2DStringArray", "carried:[]*executor.ExecutionRequest", "early-exit"},
+	"executor.walkPlanStep":                       {"call:executor.walkPlanStep"},
+	"pebbles.(*Gateway).getQueryers":              {"call:(*github.com/buildbuildio/pebbles.Gateway).getQueryers", "call:dynamic call of pebbles.QueryerFactory"},
+	"pebbles.(*Gateway).newSubscriptionEntry":     {"append-unsorted"},
+	"pebbles.(*Gateway).newSubscriptionEntry$1":   {"call:executor.FindInsertionPoints", "carried:[]*planner.QueryPlanStep", "early-exit"},
+	"pebbles.(*Gateway).parseIntrospectionQuery":  {"call:(*introspection.IntrospectionResolver).ResolveIntrospectionFields", "early-exit"},
+	"planner.(*QueryPlan).SetComputedValues":      {"call:(*planner.QueryPlanStep).SetComputedValues", "store"},
+	"planner.(*QueryPlanStep).SetComputedValues":  {"call:(*planner.QueryPlanStep).SetComputedValues", "store"},
+	"planner.extractSelectionSet":                 {"early-exit"},
 }
